@@ -133,3 +133,81 @@ Example C06_schema_examples :
    List.length (fst (SchemaScanner.scan false bs)) = 17%nat /\
    List.length (fst (Scanner.scan false bs)) = 16%nat).
 Proof. vm_compute. repeat split; reflexivity. Qed.
+
+(* ------------------------------------------------------------------ the events of a rendered JSON text, in full
+   The JSON document TEXT, through the JSON scanner model and the conversion E2E.doc_events, yields exactly the
+   events the validator machine consumes; proofs in Schema/E2EDocProofs.v. *)
+From JS Require Json.Scanner Json.Grammar Schema.Shape Schema.Machine Schema.E2E Schema.E2EDocProofs Text.Unquote.
+
+(* C06 "events describe the scanned text", in full: for every JSON value tree [d] (any depth, any width) rendered with
+   any blanks at the structural gaps and around it, the scanner delivers exactly the event list
+   [json_events_of (offset of the value) d]: the 12 event kinds with their begin / end offsets, and then ends (Done). *)
+Theorem C06_json_scan_rendered : forall w1 d w2,
+  Grammar.all_blank w1 = true -> Grammar.wf d = true -> Grammar.all_blank w2 = true ->
+  Scanner.scan false (w1 ++ Grammar.render d ++ w2)%list =
+  (E2EDocProofs.json_events_of (N.of_nat (List.length w1)) d, Scanner.Done).
+Proof. exact E2EDocProofs.json_scan_rendered. Qed.
+Print Assumptions C06_json_scan_rendered.
+
+(* C01, document side: the text yields exactly [Machine.events j] for the abstract document [j] the tree spells
+   (scalars classified as json.Guess classifies the token, keys unquoted) *)
+Theorem C01_doc_events_of_text : forall w1 d w2 j,
+  Grammar.all_blank w1 = true -> Grammar.wf d = true -> Grammar.all_blank w2 = true ->
+  E2EDocProofs.jval_of_jv d = Some j ->
+  E2E.doc_events (w1 ++ Grammar.render d ++ w2)%list = E2E.DEvents (Machine.events j).
+Proof. exact E2EDocProofs.doc_events_of_text. Qed.
+Print Assumptions C01_doc_events_of_text.
+
+(* ... and [j] exists exactly when no number token is 0e.. / -0e.. (known finding) or has an exponent the library's
+   number type refuses (beyond Go's int, or e > 10000 + fraction digits, or -e > 10000 + integer digits);
+   on the other well-formed JSON texts the conversion is stuck (json.Guess has no kind for the token) *)
+Theorem C01_doc_defined_iff : forall d, Grammar.wf d = true ->
+  ((exists j, E2EDocProofs.jval_of_jv d = Some j) <->
+   (E2EDocProofs.no_zero_int_exp d = true /\ E2EDocProofs.exps_fit d = true)).
+Proof. exact E2EDocProofs.jval_of_jv_defined_iff. Qed.
+Print Assumptions C01_doc_defined_iff.
+Theorem C01_doc_events_stuck_class : forall w1 d w2,
+  Grammar.all_blank w1 = true -> Grammar.wf d = true -> Grammar.all_blank w2 = true ->
+  (E2E.doc_events (w1 ++ Grammar.render d ++ w2)%list = E2E.DStuck <->
+   (E2EDocProofs.no_zero_int_exp d && E2EDocProofs.exps_fit d)%bool = false).
+Proof. exact E2EDocProofs.doc_events_stuck_class. Qed.
+Print Assumptions C01_doc_events_stuck_class.
+
+(* non-vacuity: a 3-level document with every blank (SP TAB CR LF) at every gap, escapes in a key (\/ \n A),
+   exponents, empty containers *)
+Definition c06doc_ws : bytes := [x20; x09; x0d; x0a].
+Definition c06doc_tree : Grammar.jv :=
+  Grammar.JObj
+    [(c06doc_ws, of_string """a\/\nA""", c06doc_ws, c06doc_ws,
+      Grammar.JArr [(c06doc_ws, Grammar.JObj [(c06doc_ws, of_string """b""", c06doc_ws, c06doc_ws,
+                                               Grammar.JTok (of_string "-1.5E+2"), c06doc_ws);
+                                              ([], of_string """""", [], [], Grammar.JArr0 c06doc_ws, [])], c06doc_ws);
+                    ([], Grammar.JTok (of_string "null"), []);
+                    (c06doc_ws, Grammar.JObj0 [], c06doc_ws)], c06doc_ws);
+     ([], of_string """c""", [], [], Grammar.JTok (of_string """x\""y"""), [x20])].
+Example C06doc_example :
+  let text := (c06doc_ws ++ Grammar.render c06doc_tree ++ c06doc_ws)%list in
+  (Grammar.wf c06doc_tree = true /\ List.length text = 112%nat) /\
+  Scanner.scan false text = (E2EDocProofs.json_events_of 4 c06doc_tree, Scanner.Done) /\
+  List.length (E2EDocProofs.json_events_of 4 c06doc_tree) = 38%nat /\
+  E2E.doc_events text =
+  E2E.DEvents
+    [Machine.EObjBegin;
+       Machine.EKeyBegin; Machine.EKeyEnd [x61; x2f; x0a; x41]; Machine.EValBegin;
+         Machine.EArrBegin;
+           Machine.EItemBegin;
+             Machine.EObjBegin;
+               Machine.EKeyBegin; Machine.EKeyEnd [x62]; Machine.EValBegin;
+                 Machine.ELitBegin; Machine.ELitEnd Shape.JInt; Machine.EValEnd;
+               Machine.EKeyBegin; Machine.EKeyEnd []; Machine.EValBegin;
+                 Machine.EArrBegin; Machine.EArrEnd; Machine.EValEnd;
+             Machine.EObjEnd;
+           Machine.EItemEnd;
+           Machine.EItemBegin; Machine.ELitBegin; Machine.ELitEnd Shape.JNull; Machine.EItemEnd;
+           Machine.EItemBegin; Machine.EObjBegin; Machine.EObjEnd; Machine.EItemEnd;
+         Machine.EArrEnd; Machine.EValEnd;
+       Machine.EKeyBegin; Machine.EKeyEnd [x63]; Machine.EValBegin;
+         Machine.ELitBegin; Machine.ELitEnd Shape.JStr; Machine.EValEnd;
+     Machine.EObjEnd] /\
+  E2E.doc_events (of_string "[0e1]") = E2E.DStuck /\ E2E.doc_events (of_string "{""a"":1e10001}") = E2E.DStuck.
+Proof. vm_compute. repeat split; reflexivity. Qed.
